@@ -18,6 +18,7 @@ from ..refs import fimo_ref as fr
 
 ID = "C11"
 LEVEL = "exploration"
+REPLAY_ENV = {"NUMBA_NUM_THREADS": "4"}
 RULE = ("one case = one (PWM, width 1-30, bin size, pseudocount) table, every "
 	"entry compared with the exact tail probability (integer counts; all "
 	"4^w sequences enumerated for w <= 7).  PWM classes: Dirichlet columns "
